@@ -47,12 +47,18 @@ class NeurolucidaAscToSwc(Transform[str, Tree]):
         next_id = 0
         typee = [types.undefined]
 
-        def walk_ast(root: ASTNode, pid: int = -1) -> None:
-            nonlocal next_id, typee
+        # walk iteratively, every point is the child of the previous one
+        # so the depth of AST is the number of points of the longest path
+        stack: list[tuple[ASTNode | None, int]] = [(ast, -1)]
+        while len(stack) > 0:
+            root, pid = stack.pop()
+            if root is None:  # leave tree
+                typee.pop()
+                continue
+
             match root.type:
                 case ASTType.ROOT:
-                    for n in root.children:
-                        walk_ast(n)
+                    stack.extend((n, -1) for n in reversed(root.children))
 
                 case ASTType.TREE:
                     match root.value:
@@ -61,10 +67,8 @@ class NeurolucidaAscToSwc(Transform[str, Tree]):
                         case "DENDRITE":
                             typee.append(types.basal_dendrite)
 
-                    for n in root.children:
-                        walk_ast(n)
-
-                    typee.pop()
+                    stack.append((None, -1))
+                    stack.extend((n, -1) for n in reversed(root.children))
 
                 case ASTType.NODE:
                     x, y, z, r = root.value
@@ -79,10 +83,8 @@ class NeurolucidaAscToSwc(Transform[str, Tree]):
                     ndata[names.r].append(r)
                     ndata[names.pid].append(pid)
 
-                    for n in root.children:
-                        walk_ast(n, pid=idx)
+                    stack.extend((n, idx) for n in reversed(root.children))
 
-        walk_ast(ast)
         tree = Tree(
             next_id,
             source=ast.source,
